@@ -473,6 +473,12 @@ pub fn run(rep: &'static Report) {
         // variables the command has no business reading are set to plausible decoys: KESTREL_NEW_PASSWORD (a left-over
         // of a key rotation) and, with -k given, KESTREL_KEYRING naming a keyring that binds the same names to other keys
         xjobs.push((ci, "decoy-environment"));
+        // the output goes to a stdout that cannot take it (a full device; a pipe whose reader is gone): the operation
+        // cannot complete, whatever its size, unless there is nothing to write
+        xjobs.push((ci, "stdout-dev-full"));
+        xjobs.push((ci, "stdout-closed-pipe"));
+        // the input arrives on a stdin pipe in pieces (first byte alone, then 999 bytes, ...)
+        xjobs.push((ci, "stdin-in-pieces"));
         // the FILE argument is literally named like a command alias (dec, enc, pass, gen)
         for nm in ["alias-named-file/dec", "alias-named-file/enc", "alias-named-file/pass", "alias-named-file/gen", "alias-named-file/decrypt"] {
             xjobs.push((ci, nm));
@@ -490,8 +496,21 @@ pub fn run(rep: &'static Report) {
         let attempt = || -> Result<(), String> {
             let l = &cases[ci];
             let tty = kind.starts_with("tty-");
-            let w = Wiring { stdin_input: kind.contains("/stdin-pipe/"), stdout_output: kind.ends_with("/stdout-pipe"), env_keyring: false, short_opts: false, alias: false, opts_first: false };
+            let failing_stdout = kind == "stdout-dev-full" || kind == "stdout-closed-pipe";
+            let w = Wiring { stdin_input: kind.contains("/stdin-pipe/") || kind == "stdin-in-pieces", stdout_output: kind.ends_with("/stdout-pipe") || failing_stdout, env_keyring: false, short_opts: false, alias: false, opts_first: false };
             let (mut cmd, mut files, _) = build_cmd(l, &w);
+            if kind == "stdout-dev-full" {
+                cmd.stdout_file = Some("/dev/full".into());
+            }
+            if kind == "stdout-closed-pipe" {
+                cmd.stdout_closed_pipe = true;
+            }
+            if kind == "stdin-in-pieces" {
+                cmd.stdin_splits = vec![1, 1000, 5000, 65536, 65537, 70000, 131072];
+            }
+            // with a stdout that takes nothing, only an operation that writes nothing can complete
+            let nothing_to_write = matches!(l.kind, Kind::Decrypt | Kind::PassDecrypt) && l.plain.is_empty();
+            let should_succeed = l.succeeds && (!failing_stdout || nothing_to_write);
             if let Some(nm) = kind.strip_prefix("alias-named-file/") {
                 for a in cmd.args.iter_mut() {
                     if a == b"input.bin" {
@@ -574,10 +593,10 @@ pub fn run(rep: &'static Report) {
                 let _ = f.join();
             }
             out.well_behaved()?;
-            if out.ok() != l.succeeds {
-                return Err(format!("exit status {} but the operation {} when {}", if out.ok() { 0 } else { 1 }, if l.succeeds { "should complete" } else { "cannot complete" }, match kind { "fifo-input" => "the FILE argument is a named pipe carrying the same bytes".to_string(), "preexisting-output" => "the output path already holds a longer file".to_string(), "decoy-environment" => "KESTREL_NEW_PASSWORD and (next to -k) KESTREL_KEYRING are set to decoys".to_string(), k if k.starts_with("alias-named-file/") => format!("the input file is named '{}'", &k[17..]), k => format!("the password is typed at a terminal ({})", k) }));
+            if out.ok() != should_succeed {
+                return Err(format!("exit status {} but the operation {} when {}", if out.ok() { 0 } else { 1 }, if should_succeed { "should complete" } else { "cannot complete" }, match kind { "stdout-dev-full" => "stdout is /dev/full".to_string(), "stdout-closed-pipe" => "stdout is a pipe whose reader is gone".to_string(), "stdin-in-pieces" => "the input arrives on a stdin pipe in pieces".to_string(), "fifo-input" => "the FILE argument is a named pipe carrying the same bytes".to_string(), "preexisting-output" => "the output path already holds a longer file".to_string(), "decoy-environment" => "KESTREL_NEW_PASSWORD and (next to -k) KESTREL_KEYRING are set to decoys".to_string(), k if k.starts_with("alias-named-file/") => format!("the input file is named '{}'", &k[17..]), k => format!("the password is typed at a terminal ({})", k) }));
             }
-            if out.ok() {
+            if out.ok() && !failing_stdout {
                 let data = if w.stdout_output { out.stdout.clone() } else { sc.read("out.bin").ok_or("exit 0 but no output file")? };
                 match l.kind {
                     Kind::Decrypt | Kind::PassDecrypt => {
